@@ -51,7 +51,10 @@ claim('C06',
 claim('C07',
   "Coq theorem bf_correct: for every well-formed instance the brute-force model never fails and prints exactly the declarative "
   "optima over all valid matchings (all nine statistics; Infeasible iff none), every profile with one entry per rank. Tied to "
-  "the code by R_bf (text or exception class through Solver -bf) and judged by M_bf against the Coq specification. F09 repaired.")
+  "the code by R_bf (text or exception class through Solver -bf) and judged by M_bf against the Coq specification. Cross-check "
+  "theorems: for any correct MILP back end the value the integer-programming mode reaches for -maxsize, -maxsize -mincost, -lmb, -lsb, "
+  "-gre, -maxsize -gre, -maxsize -gen equals the optimum brute-force mode prints; M_crosscheck runs both modes on the same instances. "
+  "F09 repaired.")
 claim('C08',
   "Coq theorems: quotas/targets/projects-per-lecturer are spread evenly (length, sum, max-min<=1, larger first, pointwise monotone in "
   "the total so lower<=target<=upper), tie probability 0 gives no parenthesis and 1 one group. File assembly is tied byte-for-byte to "
